@@ -292,6 +292,16 @@ class CallMixin:
             "star": self.to_val(kwargs["**"]) if "**" in kwargs else None,
             "preserves": tuple(ext.preserves) + tuple(getattr(self.unit, "ext_preserves", ()) if self.unit else ()),
         }
+        if ext.requires and not self.in_spec:
+            renv = {f"a{i}": a for i, a in enumerate(args)}
+            renv.update({k: v for k, v in kwargs.items() if k != "**"})
+            for i, cl in enumerate(ext.requires):
+                from .contracts import named as _named
+
+                lab, text, prop = _named(cl)
+                t, side = self.spec(text, renv)
+                self.assume_all(side)
+                self.oblige("CALL", f"{ext.name}.pre.{lab or i}@{ev['line']}", t, text, prop)
         protect = []
         for spec_text in list(ext.protect) + list(self.unit.ext_protect if self.unit else []):
             protect.extend(self.eval_locs(spec_text, ev))
@@ -412,6 +422,12 @@ class CallMixin:
         env = env if env is not None else self.spec_env_default()
         text = text.strip()
         ev_ = SpecEval(self, env, self.entry_heap, self.heap, {})
+        if text.startswith("MODULE:"):
+            # a module-level variable: MODULE:<dotted module>.<name>
+            from .interp_stmt import module_addr
+
+            modname, _, var = text[len("MODULE:"):].rpartition(".")
+            return [("attr", z3.IntVal(module_addr(modname)), z3.StringVal(var))]
         if text.startswith("list(") and text.endswith(")"):
             v = ev_.expr(text[5:-1])
             return [("list", ev_.addr_of(v))]
